@@ -423,6 +423,14 @@ macro_rules! bitvec_dyn {
     ($bv:ty, $bs:ty) => {
         impl Dyn for $bv {
             fn to_dyn(&self) -> DV {
+                let stray = {
+                    // bit-vec's invariant: no storage beyond the last used word, unused bits of that word zero
+                    let (n, st) = (self.len(), self.storage());
+                    st.len() > (n + 31) / 32 || (n % 32 != 0 && !st.is_empty() && st[st.len() - 1] & !((1u32 << (n % 32)) - 1) != 0)
+                };
+                if stray && self.len() <= self.storage().len() * 32 {
+                    return DV::V(u32::MAX, vec![DV::N(self.len() as u128), DV::N(self.storage().len() as u128 * 32), DV::N(1)]);
+                }
                 if self.len() > (1 << 22) || self.len() > self.storage().len() * 32 {
                     // oversized marker (a crafted input made the container claim this many bits,
                     // or more bits than it has storage for: using it panics inside bit-vec)
@@ -440,6 +448,13 @@ macro_rules! bitvec_dyn {
         }
         impl Dyn for $bs {
             fn to_dyn(&self) -> DV {
+                let stray = {
+                    let (n, st) = (self.get_ref().len(), self.get_ref().storage());
+                    st.len() > (n + 31) / 32 || (n % 32 != 0 && !st.is_empty() && st[st.len() - 1] & !((1u32 << (n % 32)) - 1) != 0)
+                };
+                if stray && self.get_ref().len() <= self.get_ref().storage().len() * 32 {
+                    return DV::V(u32::MAX, vec![DV::N(self.get_ref().len() as u128), DV::N(self.get_ref().storage().len() as u128 * 32), DV::N(1)]);
+                }
                 if self.get_ref().len() > (1 << 22) || self.get_ref().len() > self.get_ref().storage().len() * 32 {
                     return DV::V(u32::MAX, vec![DV::N(self.get_ref().len() as u128), DV::N(self.get_ref().storage().len() as u128 * 32)]);
                 }
